@@ -10,21 +10,6 @@ namespace Sshuttle.Tunnel
 open Sshuttle.Mux (Frame)
 open Sshuttle.Wrap
 
-/-- What a server-side handler that is still to be created can cost at most. -/
-def newH : Nat := 12
-
-def hOpt : Option ProxyS → Nat
-  | none => 0
-  | some p => 1 + hMu p
-
-def fMu (f : Flow) : Nat :=
-  eMu f.app + eMu f.dst + hOpt f.c + hOpt f.s + (if f.sEver then 0 else newH)
-
-def sumMu (l : List Flow) : Nat := (l.map fMu).sum
-
-def worldMu (w : World) : Nat :=
-  (if w.died.isSome then 0 else 1) + qMu w.cm.out + qMu w.sm.out + sumMu w.flows
-
 /-- The moves of the select loop itself (no new connection, no endpoint activity, no
 `check_fullness`, no traffic of other flow kinds). -/
 def LoopMove : Step → Prop
